@@ -322,6 +322,7 @@ def prop_C06(run):
     rules_mpt.full_loops(run, "asm::output::check_bank_overlap", what="every pair of banks")
     n = lim2_obligations(run, only=lambda key, f: bool(__import__("re").search(r"asm::output|overlap_checker|resolver::iter|bitvec::BitVec::write|resolver::(res|align|addr)::|defs::bankdef", key)))
     run.floor("LIM2", "layout arithmetic sites", n, 10)
+    rules_mpt.bool_field_value_used(run)
     run.rules_run += ["MPT every emission dominated by check_bank_usage, check_bank_output(size, write) and the overlap checker with the same position/size",
                       "PIPE phase order", "LIM2 on the layout arithmetic"]
 
